@@ -700,6 +700,43 @@ impl Prop for C03 {
         // 3-4 transactions built at (mostly) the same version, committed in a random order, sometimes re-opened
         let variant = rng.below(8);
         prep(&mut lines, &mut sim, rng, variant);
+        if rng.chance(1, 16) {
+            // field-id re-use shape: add a column, leave handles 1..3 at that version, drop the column (its data files
+            // go and the maximum field id falls back), add another column (same field id), then the stale handles
+            // write.  A stale append is the open finding `append_after_field_id_reuse`; every other stale writer
+            // (update, delete, compaction, index, drop / add column) must still serialise.
+            let a = sim.gen_act(rng, "addcol", 0);
+            let k = match &a {
+                Act::AddCol(k) => *k,
+                _ => 0,
+            };
+            push(&mut lines, 0, &a);
+            for h in 1..NH {
+                lines.push(format!("open {h}"));
+            }
+            push(&mut lines, 0, &Act::DropCol(format!("d{k}")));
+            let b = sim.gen_act(rng, "addcol", 0);
+            push(&mut lines, 0, &b);
+            sim.added.retain(|x| *x != k);
+            for h in 1..NH {
+                let kind = match rng.below(8) {
+                    0..=2 => "append",
+                    3 => "upd",
+                    4 => "delete",
+                    5 => "compact",
+                    6 => "index",
+                    _ => "addcol",
+                };
+                let fr = rng.usize(3);
+                let act = sim.gen_act(rng, kind, fr);
+                push(&mut lines, h, &act);
+            }
+            lines.push("open 0".into());
+            let fr = rng.usize(3);
+            let act = sim.gen_act(rng, "delete", fr);
+            push(&mut lines, 0, &act);
+            return lines;
+        }
         for h in 0..NH {
             lines.push(format!("open {h}"));
         }
@@ -1034,7 +1071,8 @@ impl Prop for C03 {
          delete all} built at the same version and committed one after the other, once with both touching the same \
          fragment and once different fragments, after a random preparation (index covering a prefix of the fragments, a \
          deletion, an added column), often followed by a third transaction built afterwards; then histories of 3-6 \
-         transactions over the four handles in a random handle order with occasional re-opening; 1/8 of the random cases \
+         transactions over the four handles in a random handle order with occasional re-opening (1/16 of them in the \
+         field-id re-use shape: add column, stale handles, drop it, add another, stale writers); 1/8 of the random cases \
          get a malformed line. After every step the committed transaction, columns, fragments with deletion vectors, index \
          bitmaps and the ordered scan are compared with the model, and the sorted scan with the Rust-side serial replay \
          of the effects computed at the read versions. Non-trivial = a transaction built at a stale version was \
